@@ -45,6 +45,7 @@ type World struct {
 	indexByContainer    bool
 	constGlobals        map[*ssa.Global]*ssa.Const
 	constStringSets     map[*ssa.Global][]string
+	bigIntGlobals       map[*ssa.Global]string
 	parametric          map[*ssa.Function]bool
 	reachMemo           map[[2]*ssa.Function]bool
 }
